@@ -229,7 +229,8 @@ class Grammar:
             ta = get_generic_parameter(ty)
             return int(self.expansion_depthing) + self.get_distance_to_terminal(ta)
         elif is_generic(ty):
-            return int(self.expansion_depthing) + max(
+            fold = min if is_union(ty) else max
+            return int(self.expansion_depthing) + fold(
                 self.get_distance_to_terminal(t) for t in get_generic_parameters(ty)
             )
         else:
